@@ -788,3 +788,65 @@ mut('C18', 'stab-two-numbers', BRANCHES,
 mut('C18', 'queue-dest-format', BRANCHES,
     "            dest = branch_factory(repo, 'stabilization/%s' % self.version)",
     "            dest = branch_factory(repo, 'development/%s' % self.version)")
+
+# ------------------------------------------------------------------- C17
+mut('C17', 'fix-reverted-unguarded-poll-store', GITHUB,
+    "            cached = cache.BUILD_STATUS_CACHE[key].get(combined.commit, None)\n            if not cached or cached.state != 'SUCCESSFUL':\n                cache.BUILD_STATUS_CACHE[key].set(combined.commit, status)",
+    "            cache.BUILD_STATUS_CACHE[key].set(combined.commit, status)")
+mut('C17', 'webhook-guard-removed', WEBHOOK,
+    "    cached = BUILD_STATUS_CACHE[status.key].get(event.commit)\n    if not cached or cached.state != 'SUCCESSFUL':\n        BUILD_STATUS_CACHE[status.key].set(event.commit, status)\n\n    if status.state == 'INPROGRESS':",
+    "    BUILD_STATUS_CACHE[status.key].set(event.commit, status)\n\n    if status.state == 'INPROGRESS':")
+mut('C17', 'webhook-guard-other-key', WEBHOOK,
+    "        cached = BUILD_STATUS_CACHE[key].get(commit_sha1, None)",
+    "        cached = BUILD_STATUS_CACHE[build_url].get(commit_sha1, None)")
+mut('C17', 'webhook-guard-inverted', WEBHOOK,
+    "    cached = BUILD_STATUS_CACHE[status.key].get(event.commit)\n\n    if not cached or cached.state != 'SUCCESSFUL':",
+    "    cached = BUILD_STATUS_CACHE[status.key].get(event.commit)\n\n    if cached and cached.state != 'FAILED':")
+mut('C17', 'shortcut-accepts-inprogress', GITHUB,
+    "        if status and status.state == 'SUCCESSFUL':\n            return status.state",
+    "        if status and status.state in ('SUCCESSFUL', 'INPROGRESS'):\n            return status.state")
+mut('C17', 'bb-shortcut-any-cached', BITBUCKET,
+    "        if cached and cached.state == 'SUCCESSFUL':\n            LOG.debug('Build on %s: cache GET (%s)', revision, cached.state)\n            return cached.state",
+    "        if cached:\n            LOG.debug('Build on %s: cache GET (%s)', revision, cached.state)\n            return cached.state")
+mut('C17', 'bb-poll-unguarded-after-url', BITBUCKET,
+    "        status = cache.BUILD_STATUS_CACHE[key].get(revision, None)\n        if status is not None:\n            return status.url\n",
+    "        status = cache.BUILD_STATUS_CACHE[key].get(revision, None)\n        if status is not None and status.url:\n            return status.url\n")
+mut('C17', 'empty-after-success', GITHUB,
+    "        if branch_workflow_runs.__len__() == 0:\n            return 'NOTSTARTED'\n        elif (self.is_pending(branch_workflow_runs) or\n              self.is_queued(branch_workflow_runs) or not all_complete):\n            return 'INPROGRESS'\n        elif all_complete and all_success:\n            return 'SUCCESSFUL'",
+    "        if all_complete and all_success:\n            return 'SUCCESSFUL'\n        elif branch_workflow_runs.__len__() == 0:\n            return 'NOTSTARTED'\n        elif (self.is_pending(branch_workflow_runs) or\n              self.is_queued(branch_workflow_runs) or not all_complete):\n            return 'INPROGRESS'")
+mut('C17', 'queued-ignored', GITHUB,
+    "        elif (self.is_pending(branch_workflow_runs) or\n              self.is_queued(branch_workflow_runs) or not all_complete):",
+    "        elif (self.is_pending(branch_workflow_runs) or not all_complete):")
+mut('C17', 'all-success-any', GITHUB,
+    "        all_success = all(\n            elem['conclusion'] == 'success'",
+    "        all_success = any(\n            elem['conclusion'] == 'success'")
+mut('C17', 'dispatch-filter-inverted', GITHUB,
+    "            lambda elem: elem['event'] != 'workflow_dispatch',",
+    "            lambda elem: elem['event'] == 'workflow_dispatch',")
+mut('C17', 'none-above-success', GITHUB,
+    "            'success': 4, None: 3, 'failure': 2, 'cancelled': 1",
+    "            'success': 3, None: 4, 'failure': 2, 'cancelled': 1")
+mut('C17', 'replacement-ge', GITHUB,
+    "                    conclusion_ranking[conclusion] >\n                    conclusion_ranking",
+    "                    conclusion_ranking[conclusion] <\n                    conclusion_ranking")
+mut('C17', 'precedence-failed-first', GITHUB,
+    "        if 'SUCCESSFUL' in status:\n            return 'SUCCESSFUL'\n        elif 'INPROGRESS' in status:\n            return 'INPROGRESS'\n        elif 'FAILED' in status:\n            return 'FAILED'",
+    "        if 'FAILED' in status:\n            return 'FAILED'\n        elif 'SUCCESSFUL' in status:\n            return 'SUCCESSFUL'\n        elif 'INPROGRESS' in status:\n            return 'INPROGRESS'")
+mut('C17', 'no-filter-before-grouping', GITHUB,
+    "        self.remove_unwanted_workflows()\n        res = [list(v)",
+    "        res = [list(v)")
+mut('C17', 'lru-evicts-newest', LRU,
+    "            while len(self._dict) > self._size - 1:\n                self._dict.popitem(last=False)",
+    "            while len(self._dict) > self._size - 1:\n                self._dict.popitem(last=True)")
+mut('C17', 'lru-get-no-refresh', LRU,
+    "            self._dict.move_to_end(key)\n            return self._dict[key]",
+    "            return self._dict[key]")
+mut('C17', 'cache-cleared-per-job', BERTE,
+    "        self.git_repo.reset()\n        try:\n            return self.dispatch(job)",
+    "        self.git_repo.reset()\n        self.project_repo.invalidate_build_status_cache()\n        try:\n            return self.dispatch(job)")
+mut('C17', 'notstarted-for-any-error', BITBUCKET,
+    "        except HTTPError as e:\n            if e.response.status_code == 404:\n                return 'NOTSTARTED'\n            raise\n        else:\n            return cache.BUILD_STATUS_CACHE[key].set(revision, status).state",
+    "        except HTTPError as e:\n            return 'NOTSTARTED'\n        else:\n            return cache.BUILD_STATUS_CACHE[key].set(revision, status).state")
+mut('C17', 'grouping-by-workflow', GITHUB,
+    "            lambda elem: elem['head_branch']\n        )]",
+    "            lambda elem: elem['workflow_id']\n        )]")
